@@ -252,6 +252,17 @@ def bandVerdicts (args : List String) (res : Option (List String)) : List (Strin
                    then [] else [("C15", "standard-channel-altered")])
                 | _, _, _, _, _ => [])
              | _, _, _, _, _, _ => [])
+          | "chan" =>
+            -- where RX1 uses the uplink channel itself (RX1 index = uplink index, RX1 frequency = uplink frequency), the two must denote
+            -- the same existing downlink channel: downlink channel i exists whenever uplink channel i does, with its frequency
+            (match cfg.family, out with
+             | .us915, _ | .au915, _ | .cn470, _ => []
+             | _, [u, d] =>
+               if u == "ERR" then [] else
+               if d == "ERR" then [("C12", "rx1-channel-index-denotes-no-downlink-channel"), ("C15", "rx1-channel-index-denotes-no-downlink-channel")] else
+               if (u.splitOn ":")[0]? == (d.splitOn ":")[0]? then []
+               else [("C12", "rx1-channel-and-rx1-frequency-denote-different-downlink-channels"), ("C15", "rx1-channel-and-rx1-frequency-denote-different-downlink-channels")]
+             | _, _ => [])
           | "idx" =>
             (match (rest[0]?).bind String.toNat?, ai 1, out with
              | some f, some d, [r] =>
@@ -285,6 +296,10 @@ def bandVerdicts (args : List String) (res : Option (List String)) : List (Strin
                      let custom := (b.up.filter (·.custom)).map (fun c => BitVec.ofNat 32 c.freq)
                      let nz := fs.filter (· != 0)
                      (if nz.all (custom.contains ·) then [] else [("C15", "cflist-contains-a-non-custom-channel")]) ++
+                     -- "first five, in order": the custom channels a CFList can describe (the band's CFList data-rate range), in index
+                     -- order, the first five of them in the first slots, zero after them
+                     (let el := (b.up.filter fun c => c.custom && c.minDR == cfg.cfMin && c.maxDR == cfg.cfMax).map (fun c => BitVec.ofNat 32 c.freq)
+                      if fs == (el.take 5 ++ List.replicate 5 (0 : BitVec 32)).take 5 then [] else [("C15", "cflist-is-not-the-first-five-custom-channels-in-order")]) ++
                      (if !histAddsValid (cfg.family == .ism2400) hist then [] else
                       match ({ payload := .channels fs, typ := l.typ } : CFList).enc with
                       | .ok bs => (match CFList.dec bs with | .ok l' => if l' == l then [] else [("C15", "cflist-not-decodable-to-same-values")] | _ => [("C15", "cflist-not-decodable-to-same-values")])
@@ -298,6 +313,10 @@ def bandVerdicts (args : List String) (res : Option (List String)) : List (Strin
                      let countOK := ms.length == (if n == 0 then 1 else (n + 15) / 16)
                      (if bitsOK && countOK then [] else [("C15", "cflist-masks-differ-from-enabled-channels")]) ++
                      (if ms.length ≤ 6 then [] else [("C15", "cflist-not-encodable-by-mac-layer")]))
+                | some none =>
+                  -- no CFList offered although the first describable custom channel has a frequency
+                  (let el := (b.up.filter fun c => c.custom && c.minDR == cfg.cfMin && c.maxDR == cfg.cfMax).map (·.freq)
+                   if cfg.supportsExtra && el.headD 0 != 0 then [("C15", "no-cflist-although-custom-channels-exist")] else [])
                 | _ => [])
              | _ => [])
           | _ => []
